@@ -30,7 +30,7 @@ def build(reg):
         for n in G: st.ghost[n] = V(BOOL, fresh_z(BOOL, n))
         st.ghost['DS0'] = V(BOOL, fresh_z(BOOL, 'DS0'))          # recorded digest == current digest at entry
         st.ghost['RUNSEQ'] = V(INT, fresh_z(INT, 'RUNSEQ')); st.ghost['RESSEQ'] = V(INT, fresh_z(INT, 'RESSEQ'))
-        st.ghost['OLDDS'] = V(DYN, fresh_z(DYN, 'oldDirState'))
+        st.ghost['OLDDS'] = V(DYN, fresh_z(DYN, 'oldDirState')); st.ghost['RAN'] = mk_bool(False)
     reg.ghost_const |= {'DS0', 'OLDDS'}
     def DS(st): return z3.Or(st.ghost['DSSET'].z, st.ghost['DS0'].z)
     def J(st):
@@ -74,9 +74,18 @@ def build(reg):
     def m_empty(eng, st, args, kw, node):
         st.ghost['CF'] = mk_bool(True); st.ghost['DIRTY'] = mk_bool(True); st.ghost['RUNSEQ'] = mk_int(st.ghost['RUNSEQ'].z + 1)
         crash_point(eng, st, 'emptyDirectory', node); return [(st, mk_none())]
+    @reg.model('Dyn.getInputHashes')
+    def m_getin(eng, st, args, kw, node):
+        # inputs that are not recorded compare unequal to every list of current inputs
+        r = dyn.fresh('recordedInputs'); x = z3.Const('gx', D)
+        st.assume(z3.Implies(z3.Not(st.ghost['INPUTS'].z), z3.ForAll([x], z3.Not(dyn.EQ(r.z, x)), patterns=[dyn.EQ(r.z, x)])))
+        st.ghost['RECORDED_INPUTS'] = r
+        return [(st, r)]
+    reg.pure_names |= {'Dyn.getInputHashes'}
     @reg.model('Dyn._runShell')
     def m_run(eng, st, args, kw, node):
         g = st.ghost
+        g['RAN'] = mk_bool(True)
         g['DIRTY'] = mk_bool(True); g['RUNSEQ'] = mk_int(g['RUNSEQ'].z + 1)
         crash_point(eng, st, 'start-of-script', node)
         x = st.fork()
